@@ -13,7 +13,7 @@ from harness import constraints_lib as cl
 from harness import db_lib as dbl
 
 TEXT_ATTRS = ['plain', '', "it's", 'dq"x', 'back\\slash', 'ünï☃', '%_like', 'semi;colon', '  spaced ', 'NULL', '--c', "''", 'a\nb',
-              'line\u2028sep', 'para\u2029sep', 'next\x85line']
+              'line\u2028sep', 'para\u2029sep', 'next\x85line', 'cafe\u0301', 'A\u030angstro\u0308m', 'caf\u00e9']      # (decomposed and composed spellings are different values)
 COLNAMES = ['c', 'Value', 'col_1', 'select', 'with space', 'ünï', 'x-y']
 
 
@@ -225,11 +225,11 @@ def run(chk):
                             return []
                     return []
             d = {'values': vals, 'sqltype': sqltype, 'colname': colname, 'rex': rex, 'perturbation': ('chosen after discovery' if callable(pert) else pert[:1]), 'rich': kind}
-            session_events(tid, db, 't', colname, os.path.join(root, 'r%d.tdda' % tid), rex, pert, events, d)
+            session_events(tid, db, 't', colname, os.path.join(root, 'r%d.tdda' % (tid % 3)), rex, pert, events, d)       # (file names are reused: what a path held earlier must not matter)
             detail[tid] = d
         finally:
             db.connection.close()
-            for p in (path, os.path.join(root, 'r%d.tdda' % tid)):
+            for p in (path,):
                 if os.path.exists(p):
                     os.remove(p)
         chk.coverage['replayed_cases'] += 1
